@@ -10,6 +10,12 @@
 #include <stdlib.h>
 #include <string.h>
 
+int64_t shim_scan(const uint8_t *tab, uint64_t len, int mode, const uint8_t *arg,
+		  uint64_t idx, uint8_t *out, uint64_t cap);
+int64_t shim_write(const uint8_t *desc, uint64_t dlen, uint32_t block_size,
+		   int restart_interval, int flags, uint64_t min, uint64_t max,
+		   uint8_t *out, uint64_t cap);
+
 static int unhex(const char *s, uint8_t **out)
 {
 	int n = strlen(s) / 2;
@@ -104,6 +110,29 @@ int main(int argc, char **argv)
 		int n = reftable_record_encode(&rec, sv, atoi(argv[8]));
 		printf("%d ", n);
 		hex(buf, len);
+		printf("\n");
+	} else if (!strcmp(argv[1], "scan")) {
+		uint8_t *tab, *arg;
+		int len = unhex(argv[2] + 1, &tab);
+		int mode = atoi(argv[3]);
+		uint64_t idx, cap = strtoull(argv[6], NULL, 10);
+		uint8_t *out = malloc(cap + 1);
+		int64_t n;
+		unhex(argv[4] + 1, &arg);
+		idx = strtoull(argv[5], NULL, 10);
+		n = shim_scan(tab, len, mode, arg, idx, out, cap);
+		printf("%lld ", (long long)n);
+		hex(out, n < 0 ? 0 : (n > (int64_t)cap ? (int)cap : (int)n));
+		printf("\n");
+	} else if (!strcmp(argv[1], "write")) {
+		uint8_t *desc;
+		int dlen = unhex(argv[2] + 1, &desc);
+		uint64_t cap = strtoull(argv[8], NULL, 10);
+		uint8_t *out = malloc(cap + 1);
+		int64_t n = shim_write(desc, dlen, (uint32_t)strtoul(argv[3], NULL, 10), atoi(argv[4]), atoi(argv[5]),
+				       strtoull(argv[6], NULL, 10), strtoull(argv[7], NULL, 10), out, cap);
+		printf("%lld ", (long long)n);
+		hex(out, n < 0 ? 0 : (n > (int64_t)cap ? (int)cap : (int)n));
 		printf("\n");
 	} else {
 		return 2;
